@@ -300,7 +300,9 @@ package block
 //@                       || NumPending(m.pendingData.base) >= m.config.Node.MaxPendingHeadersAndData)
 
 //@ func (m *Manager) publishBlockInternal(ctx) (err)
-//@   property C01 C04 C08 C11
+//@   property C01
+//@   property C04:kind:crash,kind:frame,height,state,inv-state,inv-tip,inv-genesis,inv-no-future
+//@   property C08:refuse,no-refuse
 //@   requires [wiring] m.metrics != nil && m.headerCache != nil && m.pendingHeaders != nil && m.pendingHeaders.base != nil && m.pendingData != nil && m.pendingData.base != nil
 //@                       && m.store != nil && m.pendingHeaders.base.store == m.store && m.pendingData.base.store == m.store && m.daHeight != nil
 //@   requires [inv] ChainInv(m)
@@ -371,3 +373,49 @@ package block
 //@   property C02 C06 C07 C09
 //@   requires [metrics] m.metrics != nil
 //@   ensures [noop] true
+
+// ---- C02 / C03 / C05: applying received blocks --------------------------------------------
+
+//@ pred SyncInv(m) := InvState(m) && m.store.height < 18446744073709551615
+
+//@ func (m *Manager) trySyncNextBlock(ctx, daHeight) (err)
+//@   property C02:kind:inv-establish,kind:inv-preserve,kind:pre,kind:frame,monotone,progress,inv
+//@   property C03:no-halt,validated
+//@   property C05:kind:crash,kind:frame,inv,state-lbh,state-persisted,monotone
+//@   requires [wiring] m.metrics != nil && m.headerCache != nil && m.dataCache != nil && m.store != nil
+//@   requires [inv] SyncInv(m)
+//@   observe val := call Validate
+//@   observe sbd := call SaveBlockData
+//@   observe shh := call SetHeight
+//@   modifies m.lastState, m.headerCache.itemAt, m.headerCache.seen, m.dataCache.itemAt, m.dataCache.seen,
+//@            durable m.store.height, durable m.store.stateAt, durable m.store.hasState,
+//@            durable m.store.has, durable m.store.hdrAt, durable m.store.hsigAt, durable m.store.signerAddrAt, durable m.store.signerKeyAt,
+//@            durable m.store.txsAt, durable m.store.dataMetaAt, durable m.store.sigAt,
+//@            heap "types.SignedHeader.signatureProvider"
+//@   loop 1 invariant [state-lbh] m.lastState.LastBlockHeight == m.store.height && m.store.height < 18446744073709551615
+//@   loop 1 invariant [state-persisted] m.store.hasState && m.store.stateAt == StateOf(m.lastState)
+//@   loop 1 invariant [monotone] m.store.height >= old(m.store.height)
+//@   loop 1 invariant [validated] sbd ==> val && val.res0 == nil && val.arg2 == sbd.arg2 && val.arg3 == sbd.arg3
+//@   loop 1 invariant [height-is-header] shh ==> sbd && shh.arg2 == sbd.arg2.BaseHeader.Height && m.store.height == shh.arg2
+//@   ensures [monotone] m.store.height >= old(m.store.height)
+//@   ensures [progress] err == nil && !ctxDone(ctx) ==> m.headerCache.itemAt[m.store.height + 1] == 0 || m.dataCache.itemAt[m.store.height + 1] == 0
+//@   ensures [inv] !m.store.faulty ==> SyncInv(m)
+//@   observe ab := call applyBlock
+//@   ensures [no-halt] err != nil ==> ctxDone(ctx) || m.store.faulty || (ab && ab.res1 != nil)
+//@   crash_inv [height-not-ahead] m.store.hasState && m.store.height <= m.store.stateAt.lastBlockHeight
+//@   crash_inv [state-at-most-one-ahead] m.store.stateAt.lastBlockHeight <= currentHeight + 1 && m.store.height >= currentHeight
+//@   crash_inv [state-has-block] m.store.stateAt.lastBlockHeight > m.store.height ==> m.store.has[m.store.stateAt.lastBlockHeight]
+
+// ---- C03: admission ------------------------------------------------------------------------
+
+//@ func (m *Manager) isUsingExpectedSingleSequencer(header) (r)
+//@   property C03
+//@   requires [non-nil] header != nil
+//@   requires [proposer-set] len(m.genesis.ProposerAddress) > 0
+//@   ensures [admit-header] r ==> GenuineHeader(header, val(m.genesis.ProposerAddress))
+
+//@ func (m *Manager) isValidSignedData(signedData) (r)
+//@   property C03
+//@   requires [proposer-set] len(m.genesis.ProposerAddress) > 0
+//@   ensures [admit-data] r ==> signedData != nil && Signed(pkraw(signedData.Signer.PubKey.val), MarshalDataOf(TxsId(signedData.Data.Txs), DMetaOf(signedData.Data)), val(signedData.Signature))
+//@                       && AddrOf(pkraw(signedData.Signer.PubKey.val)) == val(m.genesis.ProposerAddress)
